@@ -691,6 +691,26 @@ fn exec_op(
             loom::thread::park();
             Res::U
         }
+        K::NWaitUntil { n, a, mo, want } => {
+            while o.atomics[a].load(mo.std()) as u64 != want {
+                o.notifies[n].wait();
+            }
+            Res::U
+        }
+        K::ParkUntil { a, mo, want } => {
+            while o.atomics[a].load(mo.std()) as u64 != want {
+                loom::thread::park();
+            }
+            Res::U
+        }
+        K::CvWaitUntil { cv, m, a, mo, want } => {
+            let mut g = mg[m].take().expect("wait without guard");
+            while o.atomics[a].load(mo.std()) as u64 != want {
+                g = o.condvars[cv].wait(g).unwrap();
+            }
+            mg[m] = Some(g);
+            Res::U
+        }
         K::Unpark { t } => {
             let th = o.threads[t].borrow().clone().expect("unpark of a thread that was not spawned yet");
             th.unpark();
